@@ -1168,7 +1168,7 @@ func allFieldPaths(sp *spec) (covered []string, excluded map[string]string) {
 			return
 		}
 		if t == typAtomicValue {
-			excluded[path] = "in-memory cache (atomic.Value), recomputed on demand"
+			excluded[path] = "node-local cache or annotation held in an atomic.Value (hash, recovered sender/public key, shard id, priority, proof-checked mark): derived from the encoded fields or from local state, never transmitted or stored"
 			return
 		}
 		if isOpaqueLeaf(t) {
@@ -1192,7 +1192,7 @@ func allFieldPaths(sp *spec) (covered []string, excluded map[string]string) {
 				walk(t.Field(i).Type, path+"."+t.Field(i).Name)
 			}
 		default:
-			covered = append(covered, path)
+			covered = append(covered, path+"!unsupported")
 		}
 	}
 	walk(sp.typ, "")
